@@ -20,6 +20,7 @@ import (
 	"sort"
 	"strconv"
 	"strings"
+	"sync"
 	"sync/atomic"
 	"time"
 )
@@ -80,6 +81,11 @@ var envelopes = map[string]envelope{}
 // SetEnvelope sets the allocation/time envelope of one family (a <= 0 disables the allocation bound).
 func SetEnvelope(fam string, a, b, maxMs float64) { envelopes[fam] = envelope{a, b, maxMs} }
 
+// concurrent > 1: run every case also from that many goroutines on shared buffers (VERIF_CONCURRENT), each goroutine
+// repeating it concRounds times
+var concurrent = 0
+var concRounds = 3
+
 var curCase atomic.Value // string: description of the case being executed (for the watchdog)
 
 func panicKind(r interface{}) string {
@@ -127,6 +133,12 @@ func Main() {
 		if n, err := strconv.Atoi(v); err == nil {
 			caseTimeout = time.Duration(n) * time.Second
 		}
+	}
+	if v := os.Getenv("VERIF_CONCURRENT"); v != "" {
+		concurrent, _ = strconv.Atoi(v)
+	}
+	if v := os.Getenv("VERIF_CONC_ROUNDS"); v != "" {
+		concRounds, _ = strconv.Atoi(v)
 	}
 	debug.SetGCPercent(100)
 	out := bufio.NewWriterSize(os.Stdout, 1<<20)
@@ -198,11 +210,45 @@ func Main() {
 		deadline.Store(t0.Add(caseTimeout).UnixNano())
 		resetBufs()
 		impl := runCase(h, args)
-		deadline.Store(0)
 		if !buffersIntact() {
 			st.Mutated++
 			impl = "INPUT-MODIFIED:" + impl
+		} else if concurrent > 1 {
+			// C11: the same case from `concurrent` goroutines at once on SHARED input buffers; every result must
+			// equal the sequential one and the buffers must be unchanged afterwards
+			resetBufs()
+			sharedMode = true
+			outs := make([]string, concurrent)
+			var wg sync.WaitGroup
+			for g := 0; g < concurrent; g++ {
+				wg.Add(1)
+				go func(g int) {
+					defer wg.Done()
+					for r := 0; r < concRounds; r++ {
+						o := runCase(h, args)
+						if r == 0 || o != impl {
+							outs[g] = o
+						}
+						if o != impl {
+							return
+						}
+					}
+				}(g)
+			}
+			wg.Wait()
+			sharedMode = false
+			for _, o := range outs {
+				if o != impl {
+					impl = "CONCURRENT-DIFF:" + clip(o) + " vs sequential:" + impl
+					break
+				}
+			}
+			if !buffersIntact() {
+				st.Mutated++
+				impl = "INPUT-MODIFIED:" + impl
+			}
 		}
+		deadline.Store(0)
 		el := time.Since(t0)
 		runtime.ReadMemStats(&m1)
 		if ms := float64(el.Microseconds()) / 1000; ms > st.MaxMillis {
@@ -224,7 +270,9 @@ func Main() {
 		if !ok {
 			env = defaultEnvelope
 		}
-		if env.A > 0 && alloc > env.A*float64(inBytes)+env.B {
+		if concurrent > 1 {
+			// the envelope is about one call; the concurrent phase multiplies time and allocation
+		} else if env.A > 0 && alloc > env.A*float64(inBytes)+env.B {
 			impl = fmt.Sprintf("RESOURCE:alloc=%.0f-for-%d-input-bytes:", alloc, inBytes) + impl
 		} else if ms := float64(el.Microseconds()) / 1000; env.MaxMs > 0 && ms > env.MaxMs {
 			impl = fmt.Sprintf("RESOURCE:ms=%.0f-for-%d-input-bytes:", ms, inBytes) + impl
